@@ -50,11 +50,16 @@ def gen(rng, idx, tier, seed):
     spec['dhour'] = 1       # C08 is quantified over hourly steps
     spec['src'] = 'direct' if (idx // len(refcamx.FORMATS)) % 3 == 2 \
         else 'image'
+    spec['stale_attrs'] = bool(rng.random() < 0.3)
     if fmt in ('uamiv', 'lateral_boundary') and rng.random() < 0.35:
         # end of a step at midnight written as hour 24 of the ending day
         spec['eod24'] = True
         spec['shour'] = (24 - int(rng.integers(1, spec['nt'] + 1))) % 24
-    if rng.random() < 0.3:
+    if fmt in ('uamiv', 'lateral_boundary') and rng.random() < 0.25:
+        # species names with underscores, one a prefix of the other
+        spec['names'] = ['PM', 'PM_10', 'O3_X', 'A_B_C'][:max(2, len(
+            spec['names']))]
+    elif rng.random() < 0.3:
         # names that are prefixes of one another
         spec['names'] = ['NO', 'NO2', 'NO2X', 'N'][:max(2, len(
             spec['names']))]
@@ -120,6 +125,11 @@ def build_direct(spec):
     setattr(f, 'VAR-LIST', ''.join(k.ljust(16) for k in c['vars']))
     f.NVARS = nv
     f.NLAYS, f.NROWS, f.NCOLS = spec['nz'], spec['ny'], spec['nx']
+    if spec.get('stale_attrs'):
+        # count attributes left behind by an earlier subsetting (e.g. the
+        # functional slice_dim): the content is what the dimensions say
+        f.NLAYS, f.NROWS, f.NCOLS = spec['nz'] + 1, spec['ny'] + 2, \
+            spec['nx'] + 1
     if fmt != 'landuse':
         f.SDATE = st[0][0]
         f.STIME = st[0][1] * 10000
